@@ -27,7 +27,10 @@ def _trail(case):
     trail = [spec]
     mutgen.ensure_seq_uids(case['seq'])
     for m in case['seq']:
-        spec = R.apply(spec, m, strict=False)
+        try:
+            spec = R.apply(spec, m, strict=False)
+        except R.RefInvalid:
+            pass        # the tool accepted what the reference model would not: no-op here
         trail.append(spec)
     return trail
 
@@ -523,3 +526,400 @@ def callable_initial_overwrites_column(case, outcome, atoms):
         return atoms
     return [a for a in atoms
             if not (a[0] == 'rows' and a[1] == 'value_changed' and a[3] in uids)]
+
+
+# ---------------------------------------------------------------------------
+# C03 findings
+# ---------------------------------------------------------------------------
+
+@explainer
+def optimiser_rewrites_definitions_in_place(case, outcome, atoms):
+    """AppMutator._process_mutation_batch assigns to the mutation objects it was
+    given (field_name, new_field_name, field_attrs, field_type, initial,
+    model_name, new_model_name, db_table), although they are the module-level
+    evolution definitions.  Consequences that are explained with it: str() of a
+    definition differs after processing, and processing the same objects again
+    (B2, or the Evolver's second optimiser pass) sees the rewritten sequence."""
+    changed = any(a[0] in ('b_definitions_changed', 'e_definitions_changed') for a in atoms)
+    if not changed:
+        return atoms
+    out = []
+    for a in atoms:
+        if a[0] in ('b_definitions_changed', 'e_definitions_changed'):
+            continue
+        if a[0].startswith('b2_'):
+            continue
+        if a[0] == 'e_rejected' and any(x[0] == 'e_definitions_changed' for x in atoms):
+            # the Evolver's second optimiser pass met the rewritten definitions
+            continue
+        out.append(a)
+    return out
+
+
+def _c03_case(case):
+    from .props import c03
+    return c03.expand(case)
+
+
+def _batches(case):
+    """Optimiser batches: maximal runs of model mutations of one app, as the
+    bare AppMutator (consecutive same-app groups) and as the Evolver (all of an
+    app's mutations concatenated) see them; lists of indices into case['seq']."""
+    seq = case['seq']
+    out = []
+    cur = []
+    cur_app = None
+    for i, m in enumerate(seq):
+        if m['kind'] == 'SQLMutation' or m['app'] != cur_app:
+            if cur:
+                out.append(cur)
+            cur = []
+            cur_app = m['app']
+            if m['kind'] == 'SQLMutation':
+                continue
+        cur.append(i)
+    if cur:
+        out.append(cur)
+    apps = []
+    for m in seq:
+        if m['app'] not in apps:
+            apps.append(m['app'])
+    for app in apps:
+        cur = []
+        for i, m in enumerate(seq):
+            if m['app'] != app:
+                continue
+            if m['kind'] == 'SQLMutation':
+                if cur:
+                    out.append(cur)
+                cur = []
+                continue
+            cur.append(i)
+        if cur:
+            out.append(cur)
+    uniq = []
+    for b in out:
+        if b not in uniq:
+            uniq.append(b)
+    return uniq
+
+
+def _model_uid_at(trail, i, mut):
+    from . import specs as S
+    name = mut.get('model', mut.get('old'))
+    if name is None:
+        return None
+    m = S.get_model(trail[i], mut['app'], name)
+    return m['uid'] if m else None
+
+
+def _tables_of_uid(trail, uid):
+    from . import specs as S
+    out = set()
+    for sp in trail:
+        for a, n, m in S.iter_models(sp):
+            if m['uid'] == uid:
+                out.add(S.table_of(a, m))
+                for f in m['fields']:
+                    if f['kind'] == 'ManyToMany':
+                        out.add(S.m2m_table_of(a, m, f))
+    return out
+
+
+REBUILD_ATTRS = {'null', 'unique', 'max_length', 'max_digits', 'decimal_places'}
+
+
+def _is_rebuilding(mut):
+    k = mut['kind']
+    if k == 'ChangeField':
+        return bool(mut.get('field_kind') or set(mut['attrs']) & REBUILD_ATTRS)
+    if k == 'AddField':
+        return mut['field']['kind'] != 'ManyToMany'
+    if k == 'DeleteField':
+        return True
+    if k == 'ChangeMeta' and mut['prop'] == 'constraints':
+        return True
+    return False
+
+
+def c03_flags(case, outcome=None):
+    """model uid -> set of trigger flags (the structural patterns behind the
+    C03 findings).  A case with no flag at all is in the fragment where the
+    optimised run must agree with the one-at-a-time run without excuses."""
+    from . import specs as S
+    case = _c03_case(case)
+    seq = case['seq']
+    trail = _trail(case)
+    flags = {}
+
+    def flag(uid, name):
+        if uid is not None:
+            flags.setdefault(uid, set()).add(name)
+
+    uids = [_model_uid_at(trail, i, m) for i, m in enumerate(seq)]
+    # model-level mutations
+    ren_per_app = {}
+    for m in seq:
+        if m['kind'] == 'RenameModel':
+            ren_per_app[m['app']] = ren_per_app.get(m['app'], 0) + 1
+    for b in _batches(case):
+        kinds = [seq[i]['kind'] for i in b]
+        if ('RenameModel' in kinds or 'DeleteModel' in kinds) and len(b) >= 2:
+            for i in b:
+                flag(uids[i], 'model_level')
+            flag('*', 'model_level')
+    if any(n >= 2 for n in ren_per_app.values()):
+        flag('*', 'model_level')
+    has_barrier = any(m['kind'] == 'SQLMutation' for m in seq)
+    seen_model_level = False
+    for i, m in enumerate(seq):
+        if m['kind'] in ('RenameModel', 'DeleteModel'):
+            seen_model_level = True
+    if has_barrier and seen_model_level:
+        flag('*', 'model_level')
+    # per-batch patterns
+    for b in _batches(case):
+        ren, ini, drops, rebuild, colchg, metas = {}, {}, {}, set(), set(), set()
+        multi_meta = {}
+        for i in b:
+            m = seq[i]
+            u = uids[i]
+            if m['kind'] == 'RenameField':
+                ren[u] = ren.get(u, 0) + 1
+            if m['kind'] in ('AddField', 'ChangeField') and m.get('initial') is not None:
+                ini[u] = ini.get(u, 0) + 1
+            if m['kind'] == 'ChangeField' and 'db_index' in m['attrs'] and \
+                    not (set(m['attrs']) & REBUILD_ATTRS):
+                drops[u] = True
+            if m['kind'] == 'ChangeMeta':
+                key = (u, m['prop'])
+                multi_meta[key] = multi_meta.get(key, 0) + 1
+            if _is_rebuilding(m):
+                rebuild.add(u)
+            if m['kind'] == 'ChangeField' and 'db_column' in m['attrs']:
+                colchg.add(u)
+            if m['kind'] == 'RenameField':
+                colchg.add(u)
+            if m['kind'] == 'ChangeMeta':
+                metas.add(u)
+        for u, n in ren.items():
+            if n >= 2:
+                flag(u, 'multi_rename')
+        for u, n in ini.items():
+            if n >= 2:
+                flag(u, 'multi_initial')
+        for u in drops:
+            if u in rebuild:
+                flag(u, 'dbindex_rebuild')
+        for u in colchg & metas:
+            flag(u, 'dbcolumn_meta')
+        for (u, _prop), n in multi_meta.items():
+            if n >= 2:
+                flag(u, 'multi_meta')
+    # AddField with db_column folded with a later RenameField of that field
+    for b in _batches(case):
+        added_cols = {}
+        for i in b:
+            m = seq[i]
+            if m['kind'] == 'AddField' and m['field'].get('db_column'):
+                added_cols[(uids[i], m['field']['name'])] = True
+            if m['kind'] == 'RenameField' and (uids[i], m['old']) in added_cols:
+                flag(uids[i], 'add_rename_dbcolumn')
+    # several ChangeFields of one field in the whole case (folding also looks across
+    # barriers through the stale signature), or a ChangeField of a field added in the case
+    per_field = {}
+    added = set()
+    for i, m in enumerate(seq):
+        if m['kind'] == 'AddField':
+            added.add(m['field']['uid'])
+        if m['kind'] == 'ChangeField':
+            mm = S.get_model(trail[i], m['app'], m['model'])
+            f = S.get_field(mm, m['name']) if mm else None
+            if f is not None:
+                per_field[f['uid']] = per_field.get(f['uid'], 0) + 1
+                if per_field[f['uid']] >= 2 or (f['uid'] in added and m.get('field_kind')):
+                    flag(uids[i], 'multi_change')
+    # the same model is touched on both sides of a barrier
+    if has_barrier:
+        side = 0
+        sides = {}
+        for i, m in enumerate(seq):
+            if m['kind'] == 'SQLMutation':
+                side += 1
+                continue
+            sides.setdefault(uids[i], set()).add(side)
+        for u, ss in sides.items():
+            if len(ss) >= 2:
+                flag(u, 'barrier_split')
+    # Meta + rebuild (F-C01-1) and index identity (F-C01-5)
+    rebuilt = set()
+    if outcome is not None:
+        for sidev in (outcome.get('rebuilds') or {}).values():
+            rebuilt |= {k for k, v in sidev.items() if v}
+    for sp in trail:
+        for a, n, mm in S.iter_models(sp):
+            if S.has_index_overlap(mm):
+                flag(mm['uid'], 'index_overlap')
+            if mm['uid'] in rebuilt and (mm['unique_together'] or mm['index_together'] or
+                                         mm['indexes'] or mm['constraints'] or
+                                         any(f['kind'] == 'PositiveInteger' for f in mm['fields'])):
+                flag(mm['uid'], 'meta_rebuild')
+    return flags, trail
+
+
+ANY_EXC = ('EvolutionBaselineMissingError', 'MissingSignatureError', 'SimulationFailure',
+           'AttributeError', 'DatabaseStateError', 'FieldDoesNotExist', 'KeyError',
+           'OperationalError', 'IntegrityError', 'TypeError', 'AssertionError', 'RefInvalid',
+           'EvolutionExecutionError', 'ValueError')
+
+
+def _explain_by_flag(flagname, case, outcome, atoms, exc_types=ANY_EXC, kinds=None,
+                     any_table_atoms=False):
+    flags, trail = c03_flags(case, outcome)
+    hit = [u for u, fl in flags.items() if flagname in fl]
+    if not hit:
+        return atoms
+    tables = set()
+    for u in hit:
+        if u == '*':
+            continue
+        tables |= _tables_of_uid(trail, u)
+    wild = '*' in hit
+    out = []
+    for a in atoms:
+        base = a[0].split('_', 1)[1] if a[0][:2] in ('b_', 'e_') else None
+        if base is None:
+            out.append(a)
+            continue
+        if base == 'rejected':
+            if a[1] in exc_types:
+                continue
+        elif base in ('schema', 'rows'):
+            if (wild or a[1] in tables) and (kinds is None or base == 'rows' or a[2] in kinds):
+                continue
+            if any_table_atoms and base == 'schema' and a[2] == 'table':
+                continue
+        elif base == 'signature':
+            continue
+        out.append(a)
+    return out
+
+
+@explainer
+def rebuild_initials_bound_in_wrong_order(case, outcome, atoms):
+    """>=2 initial-carrying mutations (AddField with initial, ChangeField with
+    initial) of one model in one batch: the single rebuild binds parameters in
+    operation order while placeholders stand in column order, and a
+    ChangeField's initial rolled into an earlier AddField replaces its initial."""
+    return _explain_by_flag('multi_initial', case, outcome, atoms,
+                            exc_types=('IntegrityError', 'OperationalError',
+                                       'EvolutionExecutionError'), kinds=())
+
+
+@explainer
+def db_index_false_merged_into_rebuild(case, outcome, atoms):
+    """A db_index-only ChangeField sharing a batch with a table-rebuilding
+    mutation of the same model: db_index=False is dropped before the rebuild and
+    re-created by it; db_index=True is swallowed by the rebuild and never
+    created."""
+    return _explain_by_flag('dbindex_rebuild', case, outcome, atoms, exc_types=(),
+                            kinds=('index',))
+
+
+@explainer
+def model_level_mutations_inside_a_batch(case, outcome, atoms):
+    """RenameModel / DeleteModel next to other mutations: regrouping by sorted
+    model name, RenameModel chain collapse, the "rename to what the baseline
+    already has" shortcut evaluated against the start signature, and a
+    DatabaseState that does not follow renamed tables."""
+    return _explain_by_flag('model_level', case, outcome, atoms)
+
+
+@explainer
+def rebuild_drops_meta_inside_batch(case, outcome, atoms):
+    """F-C01-1 through the S/B differential (stale index bookkeeping after a
+    rebuild silently dropped Meta-derived indexes; cancelled add+delete never
+    rebuilds)."""
+    return _explain_by_flag('meta_rebuild', case, outcome, atoms,
+                            exc_types=('OperationalError', 'EvolutionExecutionError',
+                                       'DatabaseStateError'), kinds=('index', 'check'))
+
+
+@explainer
+def index_identity_inside_batch(case, outcome, atoms):
+    """F-C01-5 through the S/B differential (index identity by column list)."""
+    return _explain_by_flag('index_overlap', case, outcome, atoms,
+                            exc_types=('OperationalError', 'EvolutionExecutionError',
+                                       'DatabaseStateError'), kinds=('index',))
+
+
+@explainer
+def rename_field_chain_collapse(case, outcome, atoms):
+    """>=2 RenameFields of one model in a batch: the collapsed RenameField keeps
+    the first rename's db_column/db_table; bookkeeping keyed by (model, name)
+    confuses the old and the new holder of a name."""
+    return _explain_by_flag('multi_rename', case, outcome, atoms, any_table_atoms=True)
+
+
+@explainer
+def change_field_folding(case, outcome, atoms):
+    """Several ChangeFields of one field (or a type-changing ChangeField of a
+    field added in the same run) are folded into one mutation: attributes of a
+    type change are merged instead of reset, a null=False/initial step that is
+    later undone disappears together with its data effect, and a folded
+    db_column + type change emits a broken rebuild."""
+    return _explain_by_flag('multi_change', case, outcome, atoms)
+
+
+@explainer
+def stale_bookkeeping_behind_barrier(case, outcome, atoms):
+    """One AppMutator pre-processes and records operations for the whole list
+    against the signature/DatabaseState of the start: mutations of a model on
+    both sides of an SQLMutation barrier meet stale index/column bookkeeping."""
+    return _explain_by_flag('barrier_split', case, outcome, atoms)
+
+
+@explainer
+def db_column_change_with_meta_change(case, outcome, atoms):
+    """A column rename (ChangeField db_column / RenameField) and a ChangeMeta of
+    the same model in one batch: the index to drop/create is looked up under the
+    wrong column name."""
+    return _explain_by_flag('dbcolumn_meta', case, outcome, atoms,
+                            exc_types=('OperationalError', 'EvolutionExecutionError',
+                                       'DatabaseStateError'), kinds=('index',))
+
+
+@explainer
+def change_meta_repeated_in_batch(case, outcome, atoms):
+    """Two ChangeMetas of the same property on one model in one batch (e.g.
+    index_together added and then removed): both are lowered against the
+    bookkeeping of the start, so the second drops an index that was never
+    created ("no such index") or leaves the first one's behind."""
+    return _explain_by_flag('multi_meta', case, outcome, atoms,
+                            exc_types=('OperationalError', 'EvolutionExecutionError',
+                                       'DatabaseStateError'), kinds=('index', 'check'))
+
+
+@explainer
+def add_field_db_column_survives_rename(case, outcome, atoms):
+    """AddField(..., db_column=X) folded with a later RenameField of that field
+    (without db_column): the folded AddField keeps db_column=X although the
+    rename resets the column to the default for the new name."""
+    return _explain_by_flag('add_rename_dbcolumn', case, outcome, atoms,
+                            exc_types=(), kinds=('column', 'index'))
+
+
+# ---------------------------------------------------------------------------
+# C18
+# ---------------------------------------------------------------------------
+
+@explainer
+def mergeable_ops_missing_comma(case, outcome, atoms):
+    """BaseEvolutionOperations.mergeable_ops reads ('add_column', 'change_column',
+    'change_column_type', 'change_meta' 'delete_column'): the missing comma makes
+    the last entry the single string 'change_metadelete_column', so delete_column
+    and change_meta operations never share a rebuild with their neighbours."""
+    case = _c03_case(case)
+    if not any(m['kind'] in ('DeleteField', 'ChangeMeta') for m in case['seq']):
+        return atoms
+    return [a for a in atoms if a[0] != 'run_not_single_rewrite']
